@@ -20,6 +20,18 @@ def _status_in(e, pos):
     return '-'
 
 
+def _legacy_index(snapshot_bytes):
+    """the same index in the format of older releases: one pickle {'index': dict oid -> pos, 'pos': n}"""
+    import pickle
+    import tempfile
+    from ZODB.fsIndex import fsIndex
+    with tempfile.NamedTemporaryFile(suffix='.index') as f:
+        f.write(snapshot_bytes)
+        f.flush()
+        info = fsIndex.load(f.name)
+    return pickle.dumps({'index': dict(info['index'].items()), 'pos': info['pos']}, 3)
+
+
 class Run:
     """One behaviour executed under the recording layer."""
 
@@ -313,7 +325,7 @@ class Run:
                 details.append({'at': i, 'kind': 'after', 'detail': det})
             cand = snaps[-3:] + snaps[:1]
             for si, sver, sb in cand:
-                for variant, content in (('whole', sb), ('cut-half', sb[:len(sb) // 2]), ('cut-1', sb[:-1]),
+                for variant, content in (('whole', sb), ('legacy-format', _legacy_index(sb)), ('cut-half', sb[:len(sb) // 2]), ('cut-1', sb[:-1]),
                                          ('cut-quarter', sb[:len(sb) // 4]), ('cut-3quarters', sb[:3 * len(sb) // 4]),
                                          ('cut-12', sb[:-12])):
                     if variant != 'whole' and rng.random() < 0.55:
@@ -333,6 +345,9 @@ class Run:
                         details.append({'at': i, 'kind': 'index', 'snap': si, 'variant': variant, 'detail': det})
             # read-only open of the same directory (with the newest index, or none)
             extra = {IDX: snaps[-1][2]} if snaps and rng.random() < 0.5 else {}
+            legacy = bool(extra) and rng.random() < 0.3
+            if legacy:
+                extra = {IDX: _legacy_index(snaps[-1][2])}       # an index file in the format of older releases
             image(extra)
             before = dirhash()
             # (every third time the storage is told of a blob directory that does not exist: it must not appear)
@@ -342,7 +357,7 @@ class Run:
             after = dirhash()
             nimg += 1
             probes.setdefault(('ro', i), []).append({'n': n, 'modified': before != after, 'refused': refused,
-                                                     'variant': ('index' if extra else 'noindex') + ('+blobdir' if robd else '')})
+                                                     'variant': ('index' if extra else 'noindex') + ('+legacy' if legacy else '') + ('+blobdir' if robd else '')})
             if not n or before != after or not refused:
                 details.append({'at': i, 'kind': 'ro', 'detail': det or ('modified=%s refused=%s' % (before != after, refused))})
             # time travel (read-only, stop=tid): the state as of an earlier transaction, with and without an index file
